@@ -188,6 +188,8 @@ def run(ck):
     cnt = ck.analysed.get("filestore name analyses", 0)
     ck.floors = [f for f in ck.floors if f[0] != "filestore name analyses"]
     ck.floor("filestore name analyses", cnt, len(ntasks))
+    from ..keep_rule import check_keep
+    check_keep(ck, ck.repo, ["cfdp/tlv", "cfdp/lv.py"], floor=1)
     # ---------------------------------------------------------------- status code table
     it = new_interp(P)
     sc = {n_: v.a[0] for n_, v in it.class_namespace(P.cls(f"{DEFS}.FilestoreResponseStatusCode").qual).items() if v.k == "const" and isinstance(v.a[0], int)}
